@@ -14,8 +14,22 @@ if sys.path[0] != REPO:
     sys.path.insert(0, REPO)
 
 
-def bootstrap():
-    """Import nutree from REPO and assert that it really comes from there."""
+def bootstrap(track_locks=False):
+    """Import nutree from REPO and assert that it really comes from there.
+    track_locks: install the waits-for-graph deadlock monitor (vmon/locktrack.py) around the import."""
+    if track_locks and "nutree" not in sys.modules:
+        from . import locktrack
+
+        def _imp():
+            import importlib
+
+            import nutree  # noqa: F401
+
+            for m in ("nutree.tree", "nutree.node", "nutree.typed_tree", "nutree.common", "nutree.dot", "nutree.fs"):
+                importlib.import_module(m)
+            return [m for n, m in list(sys.modules.items()) if n == "nutree" or n.startswith("nutree.")]
+
+        locktrack.install(_imp)
     import nutree
 
     f = os.path.realpath(nutree.__file__)
